@@ -23,13 +23,23 @@ class C09(PropBase):
                 "byte-level model of every line parser are tied to the code by running both on generated files under generated schedules "
                 "(debug and release); an oracle checks no panic / no hang / <= 160 KiB read window / over-long line == line removed. "
                 "Round 2: the line model returns the parsed records and finish() builds the canonical symbol table (C08 builder, sorts, "
-                "filters, insert_win_stack_info); c09_table_spec; model and code are compared on the FULL table text.",
+                "filters, insert_win_stack_info); c09_table_spec; model and code are compared on the FULL table text. "
+                "Round 4: the WHOLE parse never panics — SymbolParser::finish (finish_item, sorts, insert_win_stack_info's unwrap, the four "
+                "try_from_iter().unwrap()) is proved total on every parser state the line recognisers can build (c09_parse_never_panics, "
+                "c09_finish_total: hex_str / decimal_u32 keep every numeric field in range); total_consumed and parser.lines stay <= |input| "
+                "(c09_counters_fit_u64); the model's loop iteration, constants and circular index arithmetic are proved equal to what a "
+                "translator regenerates from mod.rs and the pinned circular crate on every run (c09_source_pins); the correspondence "
+                "compares the whole read/callback event sequence (c09_trace_is_run). Oracle additions: numeric-boundary files carry a "
+                "format-derived verdict (ok / bad). The evidence records which record kinds, error branches and buffer transitions "
+                "the generated cases exercise (input_distribution.features / holes).",
         "note": "Trusted: Coq kernel; hand-written models of mod.rs, parser.rs, circular 0.3.0 indices (correspondence-checked, not verified); "
-                "buffer contents abstracted (FIFO contract, checked per case by comparing callback bytes with the input); range-map "
-                "construction in finish() is exercised, not modelled (C08). No axioms.",
+                "buffer contents abstracted (FIFO contract, checked per case by comparing callback bytes with the input); the loop of "
+                "mod.rs and circular's consume/fill/grow/shift are additionally pinned by translator + proof. No axioms.",
     }
-    assumptions = ["finish()/finish_item (sorting, range maps) are exercised by the harness (panic = violation) but not modelled here; C08 proves the range-map builder total",
-                   "STACK WIN overlap repair is covered under C07/C08"]
+    assumptions = ["circular::Buffer keeps its bytes in order (FIFO contract: fill appends, consume drops from the front, shift/grow keep the bytes): "
+                   "assumed by the index-only buffer model, checked on every case by comparing the callback bytes with the input",
+                   "inputs have fewer than 2^64 bytes (c09_counters_fit_u64)",
+                   "known finding F-C09a (over-long group header orphans its sub-lines) is recorded, not fixed"]
 
     def canon_model(self, case, ans):
         return G.model_part(ans)
